@@ -310,3 +310,46 @@ def initial_guesses_are_cheapest_draws(h, n, N):
     for k, d in enumerate(draws):
         if k not in which:
             h.ge("every discarded draw costs at least as much as the last guess", cost(d), cost(out[-1]))
+
+
+@unit("C06", quick=[dict(kind=k) for k in "GEU"] + [dict(kind="J")])
+def posterior_with_real_priors_is_stateless(h, kind):
+    """Posterior built on the real prior classes: repeated gradient / cost_gradient calls return the same sum
+    and leave the prior's own gradient untouched (no state shared between calls)"""
+    import inference.posterior as po
+    pr, rng = _priors(h)
+    N = 2
+    dt = object if h.sym else float
+    if kind == "J":
+        comps = [_make(pr, "U", _hyper(h, "U", 1, "a"), [1]), _make(pr, "G", _hyper(h, "G", 1, "b"), [0])]
+        prior = pr.JointPrior(comps, n_variables=N)
+        hp_support = None
+    else:
+        hp = _hyper(h, kind, N, "")
+        prior = _make(pr, kind, hp, range(N))
+    lik = h.ufunc("lik", N)
+    dl = [h.ufunc(f"lik_d{i}", N) for i in range(N)]
+
+    class Lk:
+        def __call__(self, t):
+            return lik(t)
+
+        def gradient(self, t):
+            return np.array([d(t) for d in dl], dtype=dt)
+    P = po.Posterior(Lk(), prior)
+    th = h.real("th", N)
+    th2 = h.real("th2", N)
+    if kind in "EU":
+        for v in range(N):
+            h.assume(_in_support(h, kind, hp, v, th[v], strict=True) & _in_support(h, kind, hp, v, th2[v], strict=True), "theta inside the support")
+    pg0 = np.array(prior.gradient(th), dtype=dt).copy()
+    want = np.array(Lk().gradient(th), dtype=dt) + pg0
+    g1 = np.array(P.gradient(th), dtype=dt).copy()
+    P.gradient(th2)
+    g2 = np.array(P.gradient(th), dtype=dt).copy()
+    c1 = np.array(P.cost_gradient(th), dtype=dt).copy()
+    h.eq("gradient == likelihood gradient + prior gradient", g1, want)
+    h.eq("a repeated gradient call returns the same sum", g2, want)
+    h.eq("cost_gradient == -(likelihood gradient + prior gradient)", c1, -want)
+    h.eq("the prior's own gradient is unchanged by posterior calls", np.array(prior.gradient(th), dtype=dt), pg0)
+    h.eq("call == likelihood + prior", P(th), lik(th) + prior(th))
